@@ -322,6 +322,33 @@ def make_s_verify_step(params, part, nparts):
     return h
 
 
+def make_e_snap(params, part, nparts):
+    """Chains of 2..4 VerifyingAdapterRegistry (vlib.traceprog family 'snap'): a mutation in any registry behind the front one, caches
+    warm or cold; the 8 entry points of the front registry must answer as a chain built afterwards does."""
+    from vlib import traceprog as TP
+
+    def run(prog):
+        tr = TP.run_snap(prog)
+        if tr is not None and tr['stale']:
+            bad = [i for i, (a, b) in enumerate(zip(tr['after'], tr['fresh'])) if a != b]
+            names = ['lookup', 'lookup1', 'queryAdapter', 'adapter_hook', 'lookupAll', 'names', 'subscriptions', 'lookup(arity 2)']
+            raise Violation('chain of %d VerifyingAdapterRegistry, %s in registry #%d of the resolution order, caches %s: %s answers %s, a chain '
+                            'without earlier lookups answers %s' % (prog[0], TP.SNAP_MUT[prog[2]], prog[1], 'warm' if prog[3] else 'cold',
+                                                                   names[bad[0]], tr['after'][bad[0]], tr['fresh'][bad[0]]),
+                            signature='C05:snap:stale')
+
+    def h(L: int, k: int, m: int, w: int):
+        cL = pick(L, 3) + 2
+        ck = pick(k, 3) + 1
+        assume(ck < cL)
+        cm = pick(m, len(TP.SNAP_MUT))
+        assume((cL * 5 + cm) % nparts == part)
+        prog = [cL, ck, cm, pick(w, 2)]
+        reached(tuple(prog), dict(program=prog))
+        native(run, prog)
+    return h
+
+
 _ENC = ['zope.interface.adapter:LookupBaseFallback.lookup', 'zope.interface.adapter:LookupBaseFallback.lookup1',
         'zope.interface.adapter:LookupBaseFallback.adapter_hook', 'zope.interface.adapter:LookupBaseFallback.lookupAll',
         'zope.interface.adapter:LookupBaseFallback.subscriptions', 'zope.interface.adapter:LookupBaseFallback.changed',
@@ -384,6 +411,14 @@ HARNESSES = [
             oracle='contract: the uncached answer differs only if a generation in ro[1:] moved; repeated query == current uncached answer; '
                    'snapshot refreshed to ro[1:]',
             stubs=['registry chain = objects with symbolic _generation', '_uncached_* return the current symbolic answer']),
+    Harness('e_snap', make_e_snap, kind='E', impls=('py', 'c'),
+            tiers=dict(quick=dict(budget_s=60, parts=4, params={}), thorough=dict(budget_s=120, parts=4, params={})),
+            encoded=['zope.interface.adapter:VerifyingBase.changed', 'zope.interface.adapter:VerifyingBase._verify',
+                     'zope.interface._zope_interface_coptimizations:VerifyingBase'],
+            bounds='chains of 2..4 VerifyingAdapterRegistry x the registry mutated (any behind the front one) x 5 mutations (register, '
+                   'unregister, subscribe, unsubscribe, added base) x warm / cold; 8 entry points of the front registry',
+            outside='chains longer than 4; several mutations between lookups (e_history_verifying)',
+            oracle='a chain built afterwards with the same registrations and no earlier lookups'),
 ]
 
 MANIFEST = {
